@@ -106,7 +106,10 @@ class Report:
         # count like a broken floor - analysis broken unless something else reports a violation
         broken += list(getattr(self, 'deferred_broken', []))
         fails = [m for m in merged.values() if not m['ok']]
-        if broken and not fails:
+        # (listed known findings are not violations: they must not turn an analysis-broken run into a pass)
+        unlisted = [m for m in fails if not any(k.get('rule') == m['rule'] and k.get('function') == m['function'] and
+                                                k.get('key') == m['key'] for k in mine)]
+        if broken and not unlisted:
             for b in broken:
                 print('ANALYSIS-BROKEN property=%s %s' % (self.pid, b))
             self.write_evidence(merged, [], [], broken)
